@@ -82,7 +82,7 @@ Qed.
 (** ** Deadlock freedom *)
 
 Section Fx.
-Variable fx : bool.
+Variable fx : variant.
 
 (** a batch goroutine of the flush can always run: its sends never block *)
 Lemma flush_enabled s a b rest :
@@ -127,7 +127,7 @@ Proof.
   { intros r [G|G].
     - exists (LArrive w). simpl. unfold do_arrive. rewrite G. eauto.
     - exists (LRecv w). simpl. unfold do_recv. rewrite G, CH. cbv zeta. rewrite PT, PE. simpl.
-      destruct (st_chained s w); eauto. }
+      destruct (st_chained s w); [destruct (v_loop fx)|]; eauto. }
   destruct (it_kind it) as [| |k|inn] eqn:K; [discriminate| | |].
   - (* Go *)
     assert (GS : st_gor s w <> GNone) by (eapply (c_gor_some p s IV); eauto; rewrite K; reflexivity).
@@ -352,8 +352,10 @@ Proof.
     pose proof (work_set_gor (set_chan s w (Some r)) w GDone IN) as W. rewrite work_set_chan in W.
     simpl in W. rewrite G in W. simpl in W.
     destruct (st_phase s) eqn:PH; try discriminate.
-    + destruct (is_nil (st_pend s)); [|discriminate]. destruct (st_chained s w); inversion H; subst s'.
+    + destruct (is_nil (st_pend s)); [|discriminate].
+      destruct (st_chained s w); [destruct (v_loop fx)|]; inversion H; subst s'.
       * unfold measure. rewrite work_set_chained. simpl (st_phase _). rewrite PH. lia.
+      * unfold measure. rewrite work_set_phase, work_set_chained. simpl (st_phase _). rewrite PH. simpl. lia.
       * unfold measure. rewrite work_set_phase. simpl (st_phase _). rewrite PH. simpl. lia.
     + inversion H; subst s'. unfold measure. simpl (st_phase _). rewrite PH. lia.
   - (* idle exit *)
@@ -365,7 +367,7 @@ Proof.
     destruct (forallb _ _); [|discriminate]. inversion H; subst s'.
     unfold measure. rewrite work_set_phase. simpl (st_phase _). rewrite PH. simpl. lia.
   - (* exit *)
-    unfold do_exit in H. destruct (st_phase s) eqn:PH; try discriminate. destruct fx; [|discriminate].
+    unfold do_exit in H. destruct (st_phase s) eqn:PH; try discriminate. destruct (v_fix fx); [|discriminate].
     assert (A : 1 <= grank (st_gor s w) /\ st_gor s w <> GNone /\ s' = set_gor s w GExited).
     { destruct (st_gor s w); try discriminate; inversion H; simpl; repeat split; auto; try lia; congruence. }
     destruct A as [A1 [A2 ->]].
@@ -415,7 +417,11 @@ Qed.
 
 End Fx.
 
-(** ** After the request returned: nothing stays blocked (repaired code, [fx = true]) *)
+(** ** After the request returned: nothing stays blocked (repaired code, [v_fix fx = true]) *)
+
+Section Fixed.
+Variable fx : variant.
+Hypothesis FIX : v_fix fx = true.
 
 Definition own_label (w : nat) (l : label) : Prop := l = LFinish w \/ l = LArrive w \/ l = LExit w.
 
@@ -423,36 +429,36 @@ Definition own_label (w : nat) (l : label) : Prop := l = LFinish w \/ l = LArriv
     others do: f() returns, or the executionDone case of its select fires *)
 Theorem no_leak s w :
   Inv p s -> st_phase s = PEnded -> active (st_gor s w) ->
-  exists l s', own_label w l /\ step true p s l = Some s' /\ st_phase s' = PEnded.
+  exists l s', own_label w l /\ step fx p s l = Some s' /\ st_phase s' = PEnded.
 Proof.
   intros IV PH AC. destruct (st_gor s w) as [| |j vals|r|r| |] eqn:G; simpl in AC; try tauto.
   - destruct (c_comp_kind p s IV w G) as [it [L K]].
     exists (LFinish w). eexists. split; [unfold own_label; auto|]. simpl. unfold do_finish. rewrite G, L. split; eauto.
-  - exists (LExit w). eexists. split; [unfold own_label; auto|]. simpl. unfold do_exit. rewrite PH, G. split; eauto.
-  - exists (LExit w). eexists. split; [unfold own_label; auto|]. simpl. unfold do_exit. rewrite PH, G. split; eauto.
-  - exists (LExit w). eexists. split; [unfold own_label; auto|]. simpl. unfold do_exit. rewrite PH, G. split; eauto.
+  - exists (LExit w). eexists. split; [unfold own_label; auto|]. simpl. unfold do_exit. rewrite PH, FIX, G. split; eauto.
+  - exists (LExit w). eexists. split; [unfold own_label; auto|]. simpl. unfold do_exit. rewrite PH, FIX, G. split; eauto.
+  - exists (LExit w). eexists. split; [unfold own_label; auto|]. simpl. unfold do_exit. rewrite PH, FIX, G. split; eauto.
 Qed.
 
 (** hence a state in which nothing can move any more has no goroutine left *)
 Corollary quiescent_clean s :
-  Inv p s -> st_phase s = PEnded -> (forall l, step true p s l = None) -> forall w, ~ active (st_gor s w).
+  Inv p s -> st_phase s = PEnded -> (forall l, step fx p s l = None) -> forall w, ~ active (st_gor s w).
 Proof.
   intros IV PH Q w AC. destruct (no_leak s w IV PH AC) as [l [s' [_ [E _]]]]. rewrite Q in E. discriminate.
 Qed.
 
 (** and such a state is reached: all remaining goroutines end *)
 Theorem drains : forall n s m, measure s <= n -> Inv p s -> Sim p s m -> st_phase s = PEnded ->
-  exists tr s', run true p s tr = Some s' /\ st_phase s' = PEnded /\ forall w, ~ active (st_gor s' w).
+  exists tr s', run fx p s tr = Some s' /\ st_phase s' = PEnded /\ forall w, ~ active (st_gor s' w).
 Proof.
   induction n as [|n IH]; intros s m LE IV SM PH.
   - exists [], s. repeat split; auto. intros w AC.
-    destruct (no_leak s w IV PH AC) as [l [s1 [_ [E _]]]]. pose proof (step_decreases true s l s1 IV E). lia.
+    destruct (no_leak s w IV PH AC) as [l [s1 [_ [E _]]]]. pose proof (step_decreases fx s l s1 IV E). lia.
   - destruct (existsb (fun w => match st_gor s w with GComputing | GWaiting _ _ | GFinished _ | GParked _ => true | _ => false end) (ids p)) eqn:EX.
     + apply existsb_exists in EX as [w [_ EW]].
       assert (AC : active (st_gor s w)) by (destruct (st_gor s w); try discriminate; exact I).
       destruct (no_leak s w IV PH AC) as [l [s1 [_ [E PH1]]]].
-      destruct (step_preserves p WF BF true s m l s1 IV SM E) as [m1 [_ [IV1 SM1]]].
-      pose proof (step_decreases true s l s1 IV E) as D.
+      destruct (step_preserves p WF BF fx s m l s1 IV SM E) as [m1 [_ [IV1 SM1]]].
+      pose proof (step_decreases fx s l s1 IV E) as D.
       destruct (IH s1 m1) as [tr [s' [R [PE NA]]]]; auto; [lia|].
       exists (l :: tr), s'. repeat split; auto. simpl. now rewrite E.
     + exists [], s. repeat split; auto. intros w AC.
@@ -461,9 +467,11 @@ Proof.
       specialize (F w IN). destruct (st_gor s w); simpl in AC; try tauto; discriminate.
 Qed.
 
+End Fixed.
+
 End Live.
 
-(** ** The pinned code ([fx = false]) leaks: the defect repaired by the [fix:] commit *)
+(** ** The pinned code ([pinned]) leaks: the defect repaired by the [fix:] commit *)
 
 Definition leak_prog : prog :=
   mkProg [mkItem KGo None false (ROk 7)] (fun _ l => map (fun _ => ROk 0) l) (fun _ _ => ROk 0).
@@ -479,8 +487,8 @@ Proof. intros k l. simpl. apply map_length. Qed.
 (** {slow bad}: the Go resolver's promise is abandoned, the request returns, the goroutine reaches
     its send and stays there: no label is enabled any more, for ever *)
 Theorem leak_before_fix :
-  exists s, run false leak_prog init leak_trace = Some s /\ st_phase s = PEnded /\
-            st_gor s 0 = GParked (ROk 7) /\ forall l, step false leak_prog s l = None.
+  exists s, run pinned leak_prog init leak_trace = Some s /\ st_phase s = PEnded /\
+            st_gor s 0 = GParked (ROk 7) /\ forall l, step pinned leak_prog s l = None.
 Proof.
   eexists. split; [reflexivity|]. split; [reflexivity|]. split; [reflexivity|].
   intro l. destruct l as [w|w|w| |k its| |w|c|w|w| | |w]; try reflexivity.
@@ -514,25 +522,27 @@ Proof.
   exists tr', s'. repeat split; auto. apply run_app. eauto.
 Qed.
 
-Theorem no_leak_run tr s w :
-  run true p init tr = Some s -> st_phase s = PEnded -> active (st_gor s w) ->
-  exists l s', own_label w l /\ step true p s l = Some s' /\ st_phase s' = PEnded.
-Proof. intros R PE AC. destruct (reach true tr s R) as [m [IV _]]. now apply (no_leak p). Qed.
+Theorem no_leak_run fx tr s w :
+  v_fix fx = true ->
+  run fx p init tr = Some s -> st_phase s = PEnded -> active (st_gor s w) ->
+  exists l s', own_label w l /\ step fx p s l = Some s' /\ st_phase s' = PEnded.
+Proof. intros FIX R PE AC. destruct (reach fx tr s R) as [m [IV _]]. now apply (no_leak p fx FIX). Qed.
 
-Theorem drains_run tr s :
-  run true p init tr = Some s -> st_phase s = PEnded ->
-  exists tr' s', run true p init (tr ++ tr') = Some s' /\ st_phase s' = PEnded /\ forall w, ~ active (st_gor s' w).
+Theorem drains_run fx tr s :
+  v_fix fx = true ->
+  run fx p init tr = Some s -> st_phase s = PEnded ->
+  exists tr' s', run fx p init (tr ++ tr') = Some s' /\ st_phase s' = PEnded /\ forall w, ~ active (st_gor s' w).
 Proof.
-  intros R PE. destruct (reach true tr s R) as [m [IV SM]].
-  destruct (drains p WF BF (measure p s) s m (le_n _) IV SM PE) as [tr' [s' [R' [PE' NA]]]].
+  intros FIX R PE. destruct (reach fx tr s R) as [m [IV SM]].
+  destruct (drains p WF BF fx FIX (measure p s) s m (le_n _) IV SM PE) as [tr' [s' [R' [PE' NA]]]].
   exists tr', s'. repeat split; auto. apply run_app. eauto.
 Qed.
 
 End Reach.
 
 Theorem leak_refuted_before_fix :
-  exists p tr s w r, wf_items p = true /\ bfun_ok p /\ run false p init tr = Some s /\ st_phase s = PEnded /\
-                     st_gor s w = GParked r /\ forall l, step false p s l = None.
+  exists p tr s w r, wf_items p = true /\ bfun_ok p /\ run pinned p init tr = Some s /\ st_phase s = PEnded /\
+                     st_gor s w = GParked r /\ forall l, step pinned p s l = None.
 Proof.
   destruct leak_before_fix as [s [R [PE [G Q]]]].
   exists leak_prog, leak_trace, s, 0, (ROk 7). repeat split; auto using leak_prog_wf, leak_prog_bf.
